@@ -95,7 +95,7 @@ def gen_cases(tier, rnd):
                           'ops': [['send', 1 + 2 * (ul % 128), 16384]]})
     # histories: the same object sent 1..4 times with changing fields and data sets
     for c in range(ncls):
-        for h in range(6 if tier == 'quick' else 40):
+        for h in range(6 if tier == 'quick' else 300):
             seed += 1
             ops = []
             nsend = rnd.randrange(1, 5)
